@@ -182,7 +182,7 @@ def universe(tier, seed, kinds, quick_nodes=4, thorough_nodes=5, thorough_sample
             small = [d for d in ds if S.count_nodes(d) <= 3]
             big = [d for d in ds if S.count_nodes(d) > 3]
             g.rng.shuffle(big)
-            ds = small + big[:quick_limit - len(small)]
+            ds = small + big[:max(0, quick_limit - len(small))]
             return g, ds, f'all trees <= 3 nodes + seeded sample to {quick_limit} of the {quick_nodes}-node trees'
         return g, ds, f'all trees <= {quick_nodes} nodes'
     ds = list(g.descriptions(thorough_nodes))
@@ -495,7 +495,7 @@ class Collector:
 def make_script(tree_src, o, fn_src, call, key, extras=None, pre=''):
     """Replay script: build `tree` and `o`, paste the check functions, run `call` -> list[(key, msg)]."""
     body = f'{pre}tree = {tree_src}\no = {opts_src(o)}\n' if tree_src is not None else pre
-    text = body + fn_src + call
+    text = body + call
     need = extras if extras is not None else any(nm in text for nm in EXTRA_NAMES)
     return (SCRIPT_HEADER + (EXTRA_SRC + '\n' if need else '') + '\n' + fn_src + '\n' + body
             + 'try:\n    res = ' + call + '\n'
